@@ -70,6 +70,21 @@ def main(tier):
         tfiles = {fn: G.tla_ready(p) for fn, p in files.items()}
         tfiles["_"] = []
         recs.append({"id": i, "prog": G.tla_ready(prog), "files": tfiles})
+    # three programs that never set the program counter and have no forward reference but one: a reference in front of the
+    # inner definition of a name the enclosing scope defines too (brace scope, macro body, imported file). With nothing else
+    # to force another pass, only the confirming pass of the assembler makes them mean their expansion.
+    shadow = [([G.label("dat"), G.insn("nop"), G.braces([G.insn("jmp", "dir", G.ident(["dat"])), G.insn("nop"), G.label("dat"), G.insn("rts")]), G.insn("rts")], {}),
+              ([G.label("skp"), G.insn("nop"), G.macrodef("mg", ["v"], [G.insn("beq", "dir", G.ident(["skp"])), G.insn("lda", "imm", G.ident(["v"])), G.label("skp")]),
+                G.macrocall("mg", [G.num(7)]), G.insn("rts")], {}),
+              ([G.label("ent"), G.insn("nop"), G.import_("lib.asm", "lib"), G.insn("lda", "dir", G.ident(["lib", "ent"]))],
+               {"lib.asm": [G.insn("jmp", "dir", G.ident(["ent"])), G.insn("nop"), G.label("ent"), G.insn("rts")]})]
+    for prog, files in shadow:
+        n += 1
+        G.number_statements(prog)
+        progs[n] = (prog, files)
+        tfiles = {fn: G.tla_ready(p) for fn, p in files.items()}
+        tfiles["_"] = []
+        recs.append({"id": n, "prog": G.tla_ready(prog), "files": tfiles})
     # spec -> impl: TLC computes the expansions
     wd = V.workdir("C07")
     # (in batches: the judge module accumulates its output in the state, one long run would be quadratic)
